@@ -16,7 +16,7 @@ EXPLANATION = (
     'return); diff does not write the set. D1 role routing over six hops: '
     'diff().0 (modifications) reaches only fetch_docs + MultiSet and diff().1 (removals) only Del / MultiDel — through on_diff, '
     'get_keyspace_diff\'s struct fields, repair_members\' arguments, begin_keyspace_sync\'s parameters and the two application tasks (both '
-    'lists have the same type, so the compiler accepts any swap). A the actor applies every entry of a batch it is handed (C02\'s handler obligations re-evaluated: nothing is dropped between the gate and storage, the set is folded for exactly what storage wrote). D3.SEM the poller interpreted over three polling rounds against two peers: every keyspace a peer lists whose change stamp differs from the one recorded at that peer\'s last successful exchange of it has its difference computed against that peer and is exchanged with it. NOT decided: "applying the difference leaves nothing further to fetch" '
+    'lists have the same type, so the compiler accepts any swap). A the actor applies every entry of a batch it is handed (C02\'s handler obligations re-evaluated: nothing is dropped between the gate and storage, the set is folded for exactly what storage wrote). D3.SEM the poller interpreted over three polling rounds against two peers: every keyspace a peer lists whose change stamp differs from the one recorded at that peer\'s last successful exchange of it has its difference computed against that peer and is exchanged with it. D4 source-id discipline (every live-path message carries the ordered-stream source id, every repair-path message the repair source id; = C01.S1). NOT decided: "applying the difference leaves nothing further to fetch" '
     'and the symmetric-exchange statement (consequences over all reachable set pairs).')
 ASSUMPTIONS = ['derived Ord on HLCTimestamp (C04.T1)']
 
@@ -453,6 +453,11 @@ def check(ctx):
     if not orswot_abs.check_diff(ctx, facts, 'C05.SEM'):
         check_D0(ctx, facts)
     check_D1(ctx, facts)
+    # D4: the source-id discipline (= C01.S1) re-evaluated under C05: the repair path assumes that only repair exchanges feed the
+    # read-repair source; a live-path message filed under it makes the replica refuse repaired entries it lacks, and `diff` lists them
+    # again after every exchange (round 6, C05f)
+    import c01
+    c01.check_S1(ctx, facts, CallGraph(facts), rule='C05.D4')
     # A: the keyspace actor applies what it is handed (keyspace/actor.rs is one of C05's anchors): the C02 handler
     #    obligations (write-then-fold, record = what storage gets, every region folds) re-evaluated under C05.A
     import c02
